@@ -5,7 +5,8 @@ import Spec.Standards
 
 Targets `std.<format>` with one string argument; the response is `ok {"s":[…]}` (the canonical form) when the
 standard accepts the canonicalised argument and `ok null` otherwise.  Formats: issn, ean, isbn, ismn, imo, casrn,
-imei, isin, cusip, sedol, figi, lei, iso11649, isni, grid, bic, isrc.
+imei, isin, cusip, sedol, figi, lei, iso11649, isni, grid, bic, isrc, iban (`check_country=False`: the registry rules alone,
+with the table `Spec.Standards.ibanRegistry` read off the embedded `iban.dat`).
 -/
 open Lean (Json)
 namespace Driver.Standards
@@ -37,6 +38,7 @@ def handle (target : String) (args : List Json) : Option String :=
   | "std.grid" => some (one args Std_grid canon_grid)
   | "std.bic" => some (one args Std_bic canon_bic)
   | "std.isrc" => some (one args Std_isrc canon_isrc)
+  | "std.iban" => some (one args (Std_iban ibanRegistry) canon_iban)
   | _ => none
 
 end Driver.Standards
